@@ -107,6 +107,10 @@ var resetCmd = &cobra.Command{
 		if err != nil {
 			return fmt.Errorf("fail to get log record: %w", err)
 		}
+		// the record written for a branch rename carries no commit
+		if logRecord.Hash == nil {
+			return fmt.Errorf("'%s' does not point to a commit", args[0])
+		}
 
 		// reset HEAD
 		if isSoft || isMixed || isHard {
